@@ -48,7 +48,7 @@ VARIABLES Cfg,        \* the archive header's trees (chosen once, never changes;
           applied,    \* [tree -> Seq(BOOLEAN)] good-flags of the segments applied, in order
           bmFinal,    \* bitmap_cache.is_some()
           txAcc,      \* the txhashset holds the received bitmap accumulator (set by finalize_bitmap only)
-          finalised   \* "no" | "ok" | "err"
+          finalised   \* "no" | "ok" | "err" (final check refused) | "apperr" (a batch could not be applied)
 vars == <<Cfg, cache, applied, bmFinal, txAcc, finalised>>
 
 NSeg(t)   == Cfg.nseg[t]
@@ -106,9 +106,13 @@ InitWith(c) ==
 \* kind "poison_spent": an honest output / rangeproof segment in which the data of a leaf the root does not
 \* depend on (spent, sibling spent) was altered: under a bitmap it validates like the honest one (Segment.tla:
 \* corruptions outside DependsOn are accepted), without a bitmap every leaf is required and it is refused.
+\* kind "split_root": an honest output / rangeproof segment with a pruned subtree root inside its range that
+\* carries, in addition, the hashes of that root's two children.  The extra hashes are redundant (Segment.tla: the
+\* root does not depend on them), so it validates exactly like the honest segment; the receiver cannot apply it
+\* (two sibling pruned roots cannot be appended separately: PruneLayout.tla, probe `noguard`): its batch fails.
 Valid(t, idx, kind) ==
   /\ \/ kind = "honest"
-     \/ (kind = "poison_spent" /\ t \in {"output", "rangeproof"} /\ bmFinal)
+     \/ (kind \in {"poison_spent", "split_root"} /\ t \in {"output", "rangeproof"} /\ bmFinal)
   /\ idx < NSeg(t)
   /\ t = "output" => BitmapAccComplete /\ (bmFinal \/ Cfg.complete[t][idx + 1])   \* other root = accumulator root; bitmap None needs every leaf
   /\ t = "rangeproof" => (bmFinal \/ Cfg.complete[t][idx + 1])
@@ -118,7 +122,7 @@ Accepts(t, idx, kind) == IF ValidateFirst THEN Valid(t, idx, kind) ELSE TRUE
 AddSegment(t, idx, kind) ==
   /\ finalised = "no"
   /\ cache' = IF Accepts(t, idx, kind) /\ idx \notin CachedIdx(t)
-              THEN [cache EXCEPT ![t] = @ \cup {[idx |-> idx, good |-> kind = "honest"]}]
+              THEN [cache EXCEPT ![t] = @ \cup {[idx |-> idx, good |-> kind = "honest", breaks |-> kind = "split_root"]}]
               ELSE cache
   /\ UNCHANGED <<Cfg, applied, bmFinal, txAcc, finalised>>
 
@@ -127,6 +131,7 @@ RECURSIVE Batch(_, _, _)
 Batch(t, from, n) == IF n = 0 \/ from \notin CachedIdx(t) THEN <<>> ELSE <<from>> \o Batch(t, from + 1, n - 1)
 
 GoodOf(t, i) == (CHOOSE e \in cache[t] : e.idx = i).good
+BreaksOf(t, i) == (CHOOSE e \in cache[t] : e.idx = i).breaks
 SeqRange(sq) == {sq[i] : i \in 1..Len(sq)}
 RECURSIVE Flags(_, _, _)
 \* segments below the applied count are re-applications (idempotent), the others extend the tree.  A fully
@@ -137,6 +142,10 @@ Flags(t, b, cnt) == IF b = <<>> THEN <<>>
                              nc == IF i >= cnt /\ Cfg.cover[t][i+1] > cnt THEN Cfg.cover[t][i+1] ELSE cnt
                          IN [j \in 1..(nc - cnt) |-> GoodOf(t, i)] \o Flags(t, Tail(b), nc)
 
+\* The trees are processed in the order output, rangeproof, kernel, one extension per batch.  A batch is taken out
+\* of the cache before it is applied; if it contains a segment that cannot be applied the whole batch is rolled
+\* back (and lost), the call returns the error and the later trees are not touched: the attempt has failed
+\* (finalised = "apperr"; state_sync.rs then runs the restart sequence, action Reset).
 ApplyNext ==
   /\ finalised = "no"
   /\ IF NextRequired("bitmap") # -1
@@ -144,14 +153,21 @@ ApplyNext ==
           IF i \in CachedIdx("bitmap")
           THEN /\ applied' = [applied EXCEPT !["bitmap"] = Append(@, GoodOf("bitmap", i))]
                /\ cache' = [cache EXCEPT !["bitmap"] = {e \in @ : e.idx # i}]
-               /\ UNCHANGED <<bmFinal, txAcc>>
-          ELSE UNCHANGED <<applied, cache, bmFinal, txAcc>>
+               /\ UNCHANGED <<bmFinal, txAcc, finalised>>
+          ELSE UNCHANGED <<applied, cache, bmFinal, txAcc, finalised>>
      ELSE /\ bmFinal' = TRUE
           /\ txAcc' = (IF bmFinal THEN txAcc ELSE TRUE)        \* finalize_bitmap runs only while bitmap_cache is None
           /\ LET b == [t \in PTrees |-> IF NextRequired(t) = -1 THEN <<>> ELSE Batch(t, NextRequired(t), BatchSize)]
-             IN /\ applied' = [t \in Trees |-> IF t \in PTrees THEN applied[t] \o Flags(t, b[t], Count(t)) ELSE applied[t]]
-                /\ cache' = [t \in Trees |-> IF t \in PTrees THEN {e \in cache[t] : e.idx \notin SeqRange(b[t])} ELSE cache[t]]
-  /\ UNCHANGED <<Cfg, finalised>>
+                 brk == [t \in PTrees |-> \E i \in SeqRange(b[t]) : BreaksOf(t, i)]
+                 reached == [t \in PTrees |-> CASE t = "output" -> TRUE
+                                                 [] t = "rangeproof" -> ~brk["output"]
+                                                 [] t = "kernel" -> ~brk["output"] /\ ~brk["rangeproof"]]
+             IN /\ applied' = [t \in Trees |-> IF t \in PTrees /\ reached[t] /\ ~brk[t]
+                                                THEN applied[t] \o Flags(t, b[t], Count(t)) ELSE applied[t]]
+                /\ cache' = [t \in Trees |-> IF t \in PTrees /\ reached[t]
+                                              THEN {e \in cache[t] : e.idx \notin SeqRange(b[t])} ELSE cache[t]]
+                /\ finalised' = IF \E t \in PTrees : reached[t] /\ brk[t] THEN "apperr" ELSE finalised
+  /\ UNCHANGED Cfg
 
 Finalize ==
   /\ finalised = "no" /\ Complete
@@ -162,7 +178,7 @@ Finalize ==
 \* reset_chain_head_to_genesis (the txhashset is rebuilt for the genesis state), reset_prune_lists; the same
 \* desegmenter object then starts over.  ResetClearsBitmap = FALSE is the mutant "reset forgets bitmap_cache".
 Reset ==
-  /\ finalised = "err"
+  /\ finalised \in {"err", "apperr"}
   /\ cache' = [t \in Trees |-> {}]
   /\ applied' = [t \in Trees |-> <<>>]
   /\ bmFinal' = (IF ResetClearsBitmap THEN FALSE ELSE bmFinal)
@@ -170,16 +186,39 @@ Reset ==
   /\ finalised' = "no"
   /\ UNCHANGED Cfg
 
-Next == \/ Reset
+\* The state-archive path (Chain::txhashset_write on a node that has no state yet): the zip is unpacked into a
+\* sandbox, opened for the archive header, rewound to it and validated in full (MMR hash consistency, roots and
+\* sizes against the header, kernel sums, range proofs, kernel signatures) BEFORE anything is moved in place; a
+\* refused archive leaves the node exactly where it was.  An archive is abstract: its kind.  "honest" is what
+\* txhashset_read of an honest node produces; "extra_file" is the honest archive with an unexpected member (only
+\* the expected files are unpacked); every other kind differs from the honest archive in something the state of
+\* the archive header consists of (data of an unspent output / its features byte / its range proof, a kernel, a
+\* hash, a missing or truncated file) and must be refused.
+ArchiveKinds == {"honest", "extra_file", "data_output", "data_output_features", "data_rangeproof", "data_kernel",
+                 "hash_output", "hash_kernel", "missing_file", "truncated_kernel"}
+ArchiveGood(kind) == kind \in {"honest", "extra_file"}
+ArchiveAccepts(kind) == ArchiveGood(kind)       \* validate-then-move: no switch (the mutant models are about segments)
+Fresh == \A t \in Trees : Count(t) = 0 /\ cache[t] = {}
+ArchiveWrite(kind) ==
+  /\ finalised = "no" /\ Fresh /\ ~bmFinal
+  /\ IF ArchiveAccepts(kind)
+     THEN /\ applied' = [t \in Trees |-> [i \in 1..NSeg(t) |-> ArchiveGood(kind)]]
+          /\ txAcc' = TRUE
+          /\ finalised' = "ok"
+     ELSE UNCHANGED <<applied, txAcc, finalised>>
+  /\ UNCHANGED <<Cfg, cache, bmFinal>>
+
+Next == \/ \E k \in ArchiveKinds : ArchiveWrite(k)
+        \/ Reset
         \/ \E t \in Trees : \E idx \in 0..NSeg(t), k \in Kinds : AddSegment(t, idx, k)
         \/ ApplyNext
         \/ Finalize
 Spec == (\E c \in {Cfg} : InitWith(c)) /\ [][Next]_vars   \* the MC / trace modules supply the configuration
 
 -----------------------------------------------------------------------------
-TypeOK == /\ \A t \in Trees : \A e \in cache[t] : e.idx \in 0..NSeg(t) /\ e.good \in BOOLEAN
+TypeOK == /\ \A t \in Trees : \A e \in cache[t] : e.idx \in 0..NSeg(t) /\ e.good \in BOOLEAN /\ e.breaks \in BOOLEAN /\ ~(e.good /\ e.breaks)
           /\ \A t \in Trees : Count(t) <= NSeg(t)
-          /\ finalised \in {"no", "ok", "err"}
+          /\ finalised \in {"no", "ok", "err", "apperr"}
 
 \* Whatever it is sent, it never finalises a state whose roots differ from the archive header
 NeverFinaliseWrongRoots == finalised = "ok" => AllGood
